@@ -102,20 +102,11 @@ def oracle(c, r, cases, res):
     if tin is None or tout is None or len(tin) != len(tout):
         return None if loadlib.reordered_blocks(r.node) else 'token count differs (C02)'
     if not loadlib.reordered_blocks(r.node):
-        shift, a2ml_same_line = 0, 0
         for i, (a, b) in enumerate(zip(tin, tout)):
-            if a[2] + shift != b[2]:
-                # the one known exception: /end A2ML on the last line of the A2ML text is written on a line of its own (the block
-                # parser stores the constant 1 as end offset); everything behind it is one line further down
-                in_lines = c['text'].split('\n')
-                if (a[0] == 'end' and i + 1 < len(tin) and tin[i + 1][1] == 'A2ML' and i > 0 and tin[i - 1][0] == 'a2ml'
-                        and 0 < a[2] <= len(in_lines) and in_lines[a[2] - 1].split('/end')[0].strip() != '' and b[2] == a[2] + shift + 1):
-                    shift += 1
-                    a2ml_same_line += 1
-                    continue
+            if a[2] != b[2]:
+                # (until repair 07b043a /end A2ML on the last line of the A2ML text was written on a line of its own - the witness is
+                # the first case of gen_cases)
                 return 'token %d (%s %r) moves from line %d to line %d' % (i, a[0], a[1][:30], a[2], b[2])
-        if a2ml_same_line:
-            return 'A2ML-END-SAME-LINE: /end A2ML stands on the last line of the A2ML text and is written on a line of its own (%d block(s)); every other token keeps its line relative to it' % a2ml_same_line
     # the writer's own format is a fixpoint, byte for byte
     if r.cycles:
         cy = r.cycles[0]
@@ -125,8 +116,6 @@ def oracle(c, r, cases, res):
 
 
 def classify_known(c, why, r):
-    if why.startswith('A2ML-END-SAME-LINE'):
-        return 'a2ml-end-on-the-line-of-the-text'
     return None
 
 
